@@ -128,7 +128,7 @@ def fuzz_case(r, name, g, cg, cls, mm, p, ids, tier):
         f = Fz(g, min_nonterminals=mm[0], max_nonterminals=mm[1])
         try:
             with time_cap(3):
-                return ("ok", RT.from_dt(f.expand_tree(RT.to_dt(pref))))
+                return ("ok", RT.from_dt(f.expand_tree(RT.to_dt(pref, bump=(ids != "ahead")))))
         except CaseTimeout:
             return ("timeout", None)
         except explorer.ReplayDivergence:
